@@ -380,7 +380,8 @@ def fillSilent (sol : Sol) : Sol :=
 /-- All valid solutions (every `≈`-class is represented, possibly several times when
 a pack is used more than once; the driver canonicalises and de-duplicates). -/
 def bruteForce (prob : Problem) : List Sol :=
-  ((packMultisets prob.packs (prob.tracks.length + prob.numSilent)).flatMap fun ps =>
+  (((packMultisets prob.packs (prob.tracks.length + prob.numSilent)).filter fun ps =>
+      decide (RefsOK prob.packRefs (ps.map (·.root)))).flatMap fun ps =>
     (assignAll prob.tracks (ps.map emptyAllocation)).map fillSilent).filter
       (fun sol => decide (Valid prob sol))
 
